@@ -353,7 +353,7 @@ theorem handle_error (m : M) (tok : Tok) (k : String) (d : Tok) (hm : MInv m)
         · next h2 =>
           split at h
           · next hw =>
-            rcases seeValue_error m tok k d hm hw h with h' | h'
+            rcases seeValue_error m tok k d hm (by simp only [Bool.and_eq_true] at hw; exact hw.1) h with h' | h'
             · exact Or.inr (Or.inr (Or.inr (Or.inl h')))
             · exact Or.inr (Or.inr (Or.inr (Or.inr h')))
           · next hw =>
@@ -370,7 +370,10 @@ theorem handle_error (m : M) (tok : Tok) (k : String) (d : Tok) (hm : MInv m)
                   · next hign =>
                     have := Except.error.inj h
                     simp only [Err.parse.injEq] at this
-                    refine Or.inl ⟨this.1.symm, this.2.symm, hu, by simpa using hign, by simpa using hw, by simpa using hl, ?_, ?_⟩
+                    have hwf : m.waiting = false := by
+                      have hcf : m.coreFlagInTask tok = false := by simp [M.coreFlagInTask, hi]
+                      simpa [hcf] using hw
+                    refine Or.inl ⟨this.1.symm, this.2.symm, hu, by simpa using hign, hwf, by simpa using hl, ?_, ?_⟩
                     · intro c' hc'; rw [hc] at hc'; cases hc'
                       exact ⟨by simpa using h1, by simpa using h2, by simpa using hp⟩
                     · intro ic hi'; rw [hi] at hi'; cases hi'
@@ -417,7 +420,11 @@ theorem handle_error (m : M) (tok : Tok) (k : String) (d : Tok) (hm : MInv m)
                     · next hign =>
                       have := Except.error.inj h
                       simp only [Err.parse.injEq] at this
-                      refine Or.inl ⟨this.1.symm, this.2.symm, hu, by simpa using hign, by simpa using hw, by simpa using hl, ?_, ?_⟩
+                      have hwf : m.waiting = false := by
+                        have hcf0 : (assoc? tok ic.flags).isSome = false := by simpa using hcore
+                        have hcf : m.coreFlagInTask tok = false := by simp [M.coreFlagInTask, hi, hcf0]
+                        simpa [hcf] using hw
+                      refine Or.inl ⟨this.1.symm, this.2.symm, hu, by simpa using hign, hwf, by simpa using hl, ?_, ?_⟩
                       · intro c' hc'; rw [hc] at hc'; cases hc'
                         refine ⟨by simpa using h1, by simpa using h2, ?_⟩
                         have hcf : (assoc? tok ic.flags).isSome = false := by simpa using hcore
